@@ -2179,11 +2179,26 @@ func (c *Conn) handleRecordContent(
 			// second ClientHello answers that with another HelloVerifyRequest.
 			return false, packetOutcome{}, nil
 		}
+		records := append([]protocol.RecordNumber(nil), content.Records...)
+		if prepared.header.Epoch == 0 {
+			// An ACK that arrived without record protection can have been written by
+			// anybody. It may only speak for records that were unprotected themselves
+			// (RFC 9147 Section 7: an ACK is sent under an epoch at least as high as
+			// the records it names); taking its word for protected ones would let an
+			// off-path sender acknowledge a KeyUpdate the peer never saw.
+			records = records[:0]
+			for _, record := range content.Records {
+				if record.Epoch == 0 {
+					records = append(records, record)
+				}
+			}
+			if len(records) == 0 {
+				return false, packetOutcome{}, nil
+			}
+		}
 		isLatestSeqNum := prepared.markPacketAsValid()
 
-		return isLatestSeqNum, packetOutcome{
-			receivedACK: &protocol.ACK{Records: append([]protocol.RecordNumber(nil), content.Records...)},
-		}, nil
+		return isLatestSeqNum, packetOutcome{receivedACK: &protocol.ACK{Records: records}}, nil
 	case *alert.Alert:
 		c.log.Tracef("%s: <- %s", srvCliStr(dtlsstate.CommonState(c.state).IsClient), content.String())
 		var responseAlert *alert.Alert
